@@ -48,16 +48,19 @@ ClassOf(kind) ==
     [] kind \in {"float32", "float64"} -> "float"
     [] kind \in {"slice_int", "slice_string"} -> "slice"
 
-(* A value is [n, far, cps]:  cps = code points of a string;  n = the integer, the number of halves of a
-   float, or the length of a slice;  far = -1 / 1 for the symbolic exterior points, else 0.               *)
-Measure(kind, v) ==                 \* twice the documented measure
+(* A value is [n, far, cps, eps]:  cps = code points of a string;  n = the integer, the number of halves of a
+   float, or the length of a slice;  far = -1 / 1 for the symbolic exterior points, else 0;  eps = -1 / 1 for
+   a float that is the nearest representable neighbour below / above n halves (an infinitesimal offset: it
+   decides strict vs. non-strict comparisons at a bound and nothing else), else 0.                          *)
+Measure2(kind, v) ==                \* twice the documented measure
   LET c == ClassOf(kind) IN
   IF v.far # 0 THEN v.far * FAR
   ELSE CASE c = "string" -> 2 * Len(v.cps)          \* characters (runes), not bytes
          [] c = "float"  -> v.n                     \* n counts halves
          [] OTHER        -> 2 * v.n                 \* numeric value / slice length
+Measure(kind, v) == 2 * Measure2(kind, v) + v.eps   \* four times the measure, plus the infinitesimal
 
-Violated(rule, lo, hi, m) == ~InSet(rule, 2 * lo, 2 * hi, m)
+Violated(rule, lo, hi, m) == ~InSet(rule, 4 * lo, 4 * hi, m)
 
 (* number of bytes of the UTF-8 encoding - only to state that the measure is NOT this *)
 Utf8Len(cp) == IF cp < 128 THEN 1 ELSE IF cp < 2048 THEN 2 ELSE IF cp < 65536 THEN 3 ELSE 4
@@ -72,12 +75,12 @@ Bounds == (-W)..W
 Rep(c) == IF c = "string" THEN "string" ELSE IF c = "int" THEN "int8" ELSE IF c = "uint" THEN "uint8"
           ELSE IF c = "float" THEN "float64" ELSE "slice_int"
 Str(n, cp) == [i \in 1..n |-> cp]
-V(n) == [n |-> n, far |-> 0, cps |-> <<>>]
+V(n) == [n |-> n, far |-> 0, cps |-> <<>>, eps |-> 0]
 MCValues(c) ==
-  CASE c = "string" -> {[n |-> 0, far |-> 0, cps |-> Str(n, cp)] : n \in 1..(W + 3), cp \in {97, 20013}}
+  CASE c = "string" -> {[n |-> 0, far |-> 0, cps |-> Str(n, cp), eps |-> 0] : n \in 1..(W + 3), cp \in {97, 20013}}
     [] c = "int"    -> {V(n) : n \in (-128..127) \ {0}}
     [] c = "uint"   -> {V(n) : n \in 1..255}
-    [] c = "float"  -> {V(n) : n \in ((-2 * W - 3)..(2 * W + 3)) \ {0}} \cup {[n |-> 0, far |-> f, cps |-> <<>>] : f \in {-1, 1}}
+    [] c = "float"  -> {V(n) : n \in ((-2 * W - 3)..(2 * W + 3)) \ {0}} \cup {[n |-> 0, far |-> f, cps |-> <<>>, eps |-> 0] : f \in {-1, 1}}
     [] c = "slice"  -> {V(n) : n \in 1..(W + 3)}
 
 Init == /\ pc = "idle" /\ rule = "to" /\ lo = 0 /\ hi = 0 /\ cls = "int" /\ val = V(1)
